@@ -11,6 +11,7 @@ changes).  All recursion is accepted by Lean's termination checker without fuel.
 -/
 import QsmtpModel.Lemmas.QrQp
 import QsmtpModel.Lemmas.QrLegal
+import QsmtpModel.Lemmas.QrNoHang
 
 set_option linter.unusedSimpArgs false
 
@@ -27,8 +28,14 @@ def PlainChosen (cfg : Cfg) (m : List Byte) : Prop :=
 
 /-! ### the property at full strength (stated; proved in part, see below) -/
 
-/-- **terminates**: the transfer completes or a permanent failure is reported; no loop stalls. -/
-def terminates_full : Prop := ∀ (cfg : Cfg) (m : List Byte), sendData cfg m ≠ .error .hang
+/-- **terminates** (as given, proved in full — Lemmas/QrNoHang.lean): for every message and every
+configuration the transfer completes, or a permanent failure is reported, or the model reports a
+memory fault; no loop stalls.  All recursion of the model is accepted by Lean's termination checker
+without fuel, and none of the five places where the C code could go round without changing its
+state (`.hang`: the flush loops of send_plain() and recode_qp() with an empty buffer, the fold loop
+of wrap_line() with a zero limit, the two `off += n - 2` of qp_header()) is reachable. -/
+theorem terminates_full : ∀ (cfg : Cfg) (m : List Byte), sendData cfg m ≠ .error .hang :=
+  QrData.sendData_nh
 
 /-- **no_fault**: nothing is read outside the message (or outside the part or header field a
 function was given) and nothing is written outside a staging buffer. -/
